@@ -5,6 +5,7 @@ import (
 	"fmt"
 	"net/http"
 	"net/http/httptest"
+	"os"
 	"strings"
 	"testing"
 
@@ -328,6 +329,18 @@ func c11Gen(t *rapid.T) c11Case {
 			in.Key = rapid.SampledFrom(c11Keys).Draw(t, "key")
 		}
 		c.Prog = append(c.Prog, in)
+	}
+	// a streaming handler: the body goes out in very many pieces ("however many times the handler
+	// writes"); 2% of the programs, the 16-bit range only in the thorough tier
+	if r := rapid.IntRange(0, 999).Draw(t, "streamtail"); r >= 980 {
+		tail := []int{255, 256, 257, 300, 513, 1000}[r%6]
+		if r == 999 && os.Getenv("VERIF_TIER") == "thorough" {
+			tail = 66000
+		}
+		via := rapid.IntRange(0, 3).Draw(t, "tailvia")
+		for i := 0; i < tail; i++ {
+			c.Prog = append(c.Prog, c11Instr{Op: "write", Via: via, Val: "r"})
+		}
 	}
 	return c
 }
